@@ -4,7 +4,10 @@
 //!   btcmon worker <ID> <tier> <seed> <shard> <nshards> <budget_s> <out> [<lane> <case>]
 
 #![allow(dead_code)]
+mod c06;
+mod c08;
 mod cov;
+mod fees;
 mod gen;
 mod hist;
 mod lanes;
@@ -12,6 +15,7 @@ mod model;
 mod mon;
 mod parse;
 mod rng;
+mod snap;
 mod world;
 
 use cov::{Cov, Ctx, Tier};
